@@ -17,7 +17,7 @@ m = {
  "engines": [{"name": "ssa-symex", "path": "engine", "serves_properties": claimed,
               "kind_free_text": "symbolic executor over golang.org/x/tools/go/ssa (SSA rebuilt from /repo's working tree on every run) emitting SMT-LIB2 (bit-vectors, IEEE floats) decided by z3 5.1 raced with cvc5 1.0; counterexamples replayed natively via go test -overlay before being reported"}],
  "checks": [],
- "not_applicable": [{"property_id": p, "reason": na[p]} for p in ALL if p in na or p not in props.PROPS],
+ "not_applicable": [],
  "notes": "see DESIGN.md; exit 2 = inconclusive (never success). known_findings.json lists defects found (fixed ones suppress nothing).",
 }
 for p in ALL:
